@@ -572,12 +572,13 @@ macro_rules! assert_vfs_remove {
             Ok(x) => x,
             _ => panic_msg!("assert_vfs_remove!", "failed to get absolute path", $path),
         };
-        if $vfs.exists(&target) {
+        // A link whose target is gone doesn't "exist" on a real filesystem but is still there to remove
+        if $vfs.exists(&target) || $vfs.readlink(&target).is_ok() {
             if !$vfs.is_dir(&target) {
                 if $vfs.remove(&target).is_err() {
                     panic_msg!("assert_vfs_remove!", "failed removing file", &target);
                 }
-                if $vfs.exists(&target) {
+                if $vfs.exists(&target) || $vfs.readlink(&target).is_ok() {
                     panic_msg!("assert_vfs_remove!", "file still exists", &target);
                 }
             } else {
